@@ -28,6 +28,10 @@ pub struct MacroCase {
     pub cfg: Option<ClientCfg>,
     /// call set_global_default a second time with another client (must be ignored)
     pub second_set: bool,
+    /// number of invocations made *before* the global default is set (they must
+    /// panic; the ones after the set must work, on the same thread)
+    #[serde(default)]
+    pub set_after: usize,
     pub invocations: Vec<MacroInv>,
 }
 
@@ -182,19 +186,27 @@ pub fn child_main() -> i32 {
     let mut obs = ChildObs::default();
     obs.is_set_before = cadence_macros::is_global_default_set();
     let handle = ScriptedSinkHandle::new();
-    if let Some(cfg) = &case.cfg {
-        let client = handle.build_client(cfg);
-        cadence_macros::set_global_default(client);
-        if case.second_set {
-            let other = ScriptedSinkHandle::new();
-            let mut cfg2 = cfg.clone();
-            cfg2.prefix = "SECOND-SET-MUST-BE-IGNORED".into();
-            cadence_macros::set_global_default(other.build_client(&cfg2));
+    let set_at = if case.cfg.is_some() { case.set_after.min(case.invocations.len()) } else { usize::MAX };
+    let do_set = |handle: &ScriptedSinkHandle| {
+        if let Some(cfg) = &case.cfg {
+            let client = handle.build_client(cfg);
+            cadence_macros::set_global_default(client);
+            if case.second_set {
+                let other = ScriptedSinkHandle::new();
+                let mut cfg2 = cfg.clone();
+                cfg2.prefix = "SECOND-SET-MUST-BE-IGNORED".into();
+                cadence_macros::set_global_default(other.build_client(&cfg2));
+            }
         }
+    };
+    if set_at == 0 {
+        do_set(&handle);
     }
-    obs.is_set_after = cadence_macros::is_global_default_set();
-    obs.get_ok_after = cadence_macros::get_global_default().is_ok();
     for (i, inv) in case.invocations.iter().enumerate() {
+        if i == set_at && set_at != 0 {
+            do_set(&handle);
+        }
+        let is_set_now = i >= set_at;
         let mut o = InvObs::default();
         let cnt: Vec<Cell<u32>> = (0..8).map(|_| Cell::new(0)).collect();
         handle.arm(inv.sink, 2 * i as u64 + 1);
@@ -210,7 +222,7 @@ pub fn child_main() -> i32 {
         o.macro_emitted = em;
         o.macro_handler = hl.iter().map(SerErr::from).collect();
         o.arg_counts = cnt.iter().take(2 + 2 * inv.tags.len().min(3)).map(|c| c.get()).collect();
-        if case.cfg.is_some() {
+        if is_set_now {
             handle.arm(inv.sink, 2 * i as u64 + 2);
             match util::catch(|| invoke_chain(inv)) {
                 Ok(Ok(())) => {}
@@ -226,6 +238,11 @@ pub fn child_main() -> i32 {
         }
         obs.invocations.push(o);
     }
+    if set_at != usize::MAX && set_at >= case.invocations.len() && set_at != 0 {
+        do_set(&handle);
+    }
+    obs.is_set_after = cadence_macros::is_global_default_set();
+    obs.get_ok_after = cadence_macros::get_global_default().is_ok();
     let out = serde_json::to_string(&obs).unwrap();
     let _ = std::io::stdout().write_all(out.as_bytes());
     0
@@ -276,8 +293,9 @@ pub fn judge(case: &MacroCase, obs: &ChildObs) -> Vec<String> {
         bad.push("child reported a different number of invocations".into());
         return bad;
     }
+    let set_at = if case.cfg.is_some() { case.set_after.min(case.invocations.len()) } else { usize::MAX };
     for (i, (inv, o)) in case.invocations.iter().zip(obs.invocations.iter()).enumerate() {
-        let cfg = match &case.cfg {
+        let cfg = match case.cfg.as_ref().filter(|_| i >= set_at) {
             None => {
                 // panics iff no global client has been set
                 if o.macro_panic.is_none() {
@@ -392,11 +410,13 @@ pub fn macro_case() -> BoxedStrategy<MacroCase> {
     (
         prop::option::weighted(0.9, cfg_strategy(4)),
         prop::bool::weighted(0.3),
+        prop_oneof![3 => Just(0usize), 2 => 1usize..6],
         prop::collection::vec(inv, 1..40),
     )
-        .prop_map(|(cfg, second_set, invocations)| MacroCase {
+        .prop_map(|(cfg, second_set, set_after, invocations)| MacroCase {
             cfg,
             second_set,
+            set_after,
             invocations,
         })
         .boxed()
@@ -449,6 +469,9 @@ impl Campaign for MacroCampaign {
         }
         if case.second_set {
             classes.push("second set_global_default (ignored)");
+        }
+        if case.cfg.is_some() && case.set_after > 0 {
+            classes.push("macros invoked before and after the global default is set");
         }
         Outcome {
             verdict: match bad.first() {
